@@ -2,7 +2,9 @@
 """Regenerate MANIFEST.json from the table below (keeps it valid and consistent)."""
 import json, pathlib
 ROOT = pathlib.Path(__file__).resolve().parent.parent
-CHECKS = json.loads((ROOT / "tools" / "manifest_checks.json").read_text())
+CHECKS = {"checks": [json.loads(p.read_text()) for p in sorted((ROOT / "tools" / "manifest").glob("C*.json"))],
+          "notes": "One script decides every property: ./check <id> quick|thorough (stages T translate, P prove, A audit, C correspond, O oracle/search; DESIGN.md §2.5).",
+          "pending": {}}
 props = [json.loads(l)["id"] for l in (ROOT / "properties.jsonl").read_text().splitlines() if l.strip()]
 m = {
  "version": 1,
